@@ -204,10 +204,30 @@ def ob_tg_own_span(timeout):
     return Ob("tgspace-own-span", F(*names), body, pre, fmode="real", timeout=timeout, funcs=FUNCS[:3], bounds="textgrid [0,H] holding tiers that span [tl,th] inside it, and a textgrid without tiers")
 
 
-def ob_roundtrip(k, mode, timeout, labels=LABELS, tag=""):
+def ob_roundtrip(k, mode, timeout, labels=LABELS, tag="", scale=None):
     """insertSpace(s,d,mode) ; eraseRegion(s,s+d,'truncate',doShrink) restores the
-    label-at-every-time function and the span (stretch/split)."""
+    label-at-every-time function and the span (stretch/split).
+    scale: None = arbitrary reals 2^-16 apart; a number = every time is a small integer times
+    `scale` (exact dyadic grid of tiny magnitudes, e.g. 2^-60)"""
     names = ["s", "d", "hi"] + _ts(k)
+    if scale is not None:
+        def pre_grid(s, d, hi, *ts):
+            return bool(ivs_wf_pre(0, hi, *ts)) and 0 <= s <= hi <= 9 and 1 <= d <= 4
+
+        def body_grid(s, d, hi, *ts):
+            s, d, hi, ts = s * scale, d * scale, hi * scale, [t * scale for t in ts]
+            ents = [(ts[2 * i], ts[2 * i + 1], labels[i]) for i in range(k)]
+            tier = IntervalTier("t", mk_ivs(ts, labels), 0.0, hi)
+            r = tier.insertSpace(s, d, mode).eraseRegion(s, s + d, "truncate", True)
+            if (r.minTimestamp, r.maxTimestamp) != (0.0, hi):
+                return "span not restored"
+            got = tuples(r.entries)
+            for c0, c1 in R.cells(0.0, hi, s, *ts):
+                if R.label_at(got, c0, c1) != R.label_at(ents, c0, c1):
+                    return "label-at-time differs"
+            return True if wf_interval(r) else "ill-formed"
+
+        return Ob("roundtrip-k%d-%s%s-grid" % (k, mode, tag), I(*names), body_grid, pre_grid, fmode="real", timeout=timeout, funcs=[FUNCS[0], FUNCS[3]], bounds="k=%d intervals; every time is k * %r with k an integer in 0..9 (tiny magnitudes, exact)" % (k, scale))
 
     def pre(s, d, hi, *ts):
         return (
@@ -258,7 +278,10 @@ def obligations(tier):
         for mode in ("stretch", "split"):
             obs.append(ob_roundtrip(2, mode, 300))
         obs.append(ob_roundtrip(3, "stretch", 600, labels=["x", "x", "y"], tag="-xxy"))
+        obs.append(ob_roundtrip(2, "stretch", 300, labels=["x", "x"], tag="-xx", scale=2.0 ** -60))
     else:
+        obs.append(ob_roundtrip(2, "stretch", 900, labels=["x", "x"], tag="-xx", scale=2.0 ** -60))
+        obs.append(ob_roundtrip(3, "stretch", 900, labels=["x", "x", "y"], tag="-xxy", scale=2.0 ** -60))
         obs.append(ob_roundtrip(3, "stretch", 3000, labels=["x", "x", "y"], tag="-xxy"))
         obs.append(ob_roundtrip(3, "split", 3000, labels=["x", "y", "y"], tag="-xyy"))
         for mode in MODES:
